@@ -6,6 +6,7 @@
 package peer
 
 import (
+	"bytes"
 	"context"
 	"encoding/binary"
 	"errors"
@@ -283,7 +284,11 @@ func Message(ty uint8, id uint32) (p9p.Message, bool) {
 	case p9p.Twalk:
 		return p9p.MessageTwalk{Fid: p9p.Fid(id), Newfid: p9p.Fid(id), Wnames: []string{"x"}}, true
 	case p9p.Rwalk:
-		return p9p.MessageRwalk{Qids: []p9p.Qid{qid(id)}}, true
+		qs := make([]p9p.Qid, 1+id%3) // all carry the id: a mixed-up reply shows
+		for i := range qs {
+			qs[i] = qid(id)
+		}
+		return p9p.MessageRwalk{Qids: qs}, true
 	case p9p.Topen:
 		return p9p.MessageTopen{Fid: p9p.Fid(id)}, true
 	case p9p.Ropen:
@@ -295,7 +300,7 @@ func Message(ty uint8, id uint32) (p9p.Message, bool) {
 	case p9p.Tread:
 		return p9p.MessageTread{Fid: p9p.Fid(id), Count: 8}, true
 	case p9p.Rread:
-		return p9p.MessageRread{Data: idb}, true
+		return p9p.MessageRread{Data: Payload(id)}, true
 	case p9p.Twrite:
 		return p9p.MessageTwrite{Fid: p9p.Fid(id), Data: idb}, true
 	case p9p.Rwrite:
@@ -311,7 +316,7 @@ func Message(ty uint8, id uint32) (p9p.Message, bool) {
 	case p9p.Tstat:
 		return p9p.MessageTstat{Fid: p9p.Fid(id)}, true
 	case p9p.Rstat:
-		return p9p.MessageRstat{Stat: p9p.Dir{Qid: qid(id), Length: uint64(id), Name: "f", UID: "u", GID: "g", MUID: "m"}}, true
+		return p9p.MessageRstat{Stat: p9p.Dir{Qid: qid(id), Length: uint64(id), Name: "f" + strconv.FormatUint(uint64(id), 10), UID: "u", GID: "g", MUID: "m"}}, true
 	case p9p.Twstat:
 		return p9p.MessageTwstat{Fid: p9p.Fid(id), Stat: p9p.Dir{Name: "f"}}, true
 	case p9p.Rwstat:
@@ -333,6 +338,19 @@ func Reply(tag uint16, ty uint8, id uint32) []byte {
 	return raw
 }
 
+// Payload is the data of the Rread reply with payload id: the id, then a
+// pattern that depends on the id, 40..600 bytes in all, so that bytes of
+// another reply showing up in it are seen.
+func Payload(id uint32) []byte {
+	n := 40 + int(id%561)
+	b := make([]byte, n)
+	binary.LittleEndian.PutUint64(b, uint64(id))
+	for i := 8; i < n; i++ {
+		b[i] = byte(id*31 + uint32(i)*7)
+	}
+	return b
+}
+
 // Result of one Session method call, projected to what C05/C12 talk about.
 type Result struct {
 	Class string // ok | rerror | unexpected | closed | ctx | werr | depleted | other
@@ -346,8 +364,8 @@ func (r Result) Sexp() sx.S {
 		return sx.L(sx.Sym(r.Class), sx.U(uint64(r.ID)))
 	case "werr", "depleted":
 		return sx.L(sx.Sym("err"), sx.Sym(r.Class))
-	case "other":
-		return sx.L(sx.Sym("err"), sx.Sym("other"))
+	case "other", "corrupt":
+		return sx.L(sx.Sym("err"), sx.Sym(r.Class))
 	}
 	return sx.Sym(r.Class)
 }
@@ -410,6 +428,13 @@ func Call(ctx context.Context, s p9p.Session, mt uint8, c uint32, big bool) Resu
 		if len(qs) > 0 {
 			id = uint32(qs[0].Path)
 		}
+		if err == nil {
+			for _, q := range qs {
+				if uint32(q.Path) != id || len(qs) != int(1+id%3) {
+					return Result{Class: "corrupt", ID: id, Text: fmt.Sprintf("Rwalk qids %v do not all carry payload id %d", qs, id)}
+				}
+			}
+		}
 		return classify(id, err)
 	case p9p.Topen:
 		q, _, err := s.Open(ctx, fid, p9p.OREAD)
@@ -418,11 +443,14 @@ func Call(ctx context.Context, s p9p.Session, mt uint8, c uint32, big bool) Resu
 		q, _, err := s.Create(ctx, fid, "n", 0644, p9p.OREAD)
 		return classify(uint32(q.Path), err)
 	case p9p.Tread:
-		buf := make([]byte, 16)
+		buf := make([]byte, 1024)
 		n, err := s.Read(ctx, fid, buf, 0)
 		var id uint32
 		if n >= 8 {
 			id = uint32(binary.LittleEndian.Uint64(buf[:8]))
+		}
+		if err == nil && !bytes.Equal(buf[:n], Payload(id)) {
+			return Result{Class: "corrupt", ID: id, Text: fmt.Sprintf("Rread data (%d bytes, id field %d) is not the payload the peer sent for that id", n, id)}
 		}
 		return classify(id, err)
 	case p9p.Twrite:
@@ -434,6 +462,9 @@ func Call(ctx context.Context, s p9p.Session, mt uint8, c uint32, big bool) Resu
 		return classify(0, s.Remove(ctx, fid))
 	case p9p.Tstat:
 		d, err := s.Stat(ctx, fid)
+		if err == nil && (d.Name != "f"+strconv.FormatUint(d.Qid.Path, 10) || d.Length != d.Qid.Path) {
+			return Result{Class: "corrupt", ID: uint32(d.Qid.Path), Text: fmt.Sprintf("Rstat fields disagree: qid path %d, length %d, name %q", d.Qid.Path, d.Length, d.Name)}
+		}
 		return classify(uint32(d.Qid.Path), err)
 	case p9p.Twstat:
 		return classify(0, s.WStat(ctx, fid, p9p.Dir{Name: "f"}))
@@ -455,6 +486,33 @@ func Start(parent context.Context, s p9p.Session, mt uint8, c uint32, big bool) 
 	p := &Pending{C: c, MT: mt, Cancel: cancel, Done: make(chan Result, 1)}
 	go func() { p.Done <- Call(ctx, s, mt, c, big) }()
 	return p
+}
+
+// StartCtx runs Call under the given context (e.g. one with a deadline).
+func StartCtx(ctx context.Context, cancel context.CancelFunc, s p9p.Session, mt uint8, c uint32) *Pending {
+	p := &Pending{C: c, MT: mt, Cancel: cancel, Done: make(chan Result, 1)}
+	go func() { p.Done <- Call(ctx, s, mt, c, false) }()
+	return p
+}
+
+// NextFrameOrReturn waits for the next request frame or for the call to
+// return, whichever comes first.
+func (p *Peer) NextFrameOrReturn(pd *Pending) (f Frame, res *Result, err error) {
+	select {
+	case fr, ok := <-p.Frames:
+		if !ok {
+			return Frame{}, nil, errors.New("client side of the connection failed")
+		}
+		p.gate.Lock()
+		p.taken++
+		p.gate.Unlock()
+		return fr, nil, nil
+	case r := <-pd.Done:
+		pd.Done <- r
+		return Frame{}, &r, nil
+	case <-time.After(Wait):
+		return Frame{}, nil, errors.New("neither a request frame nor a return within the time-out")
+	}
 }
 
 // Await waits for the call to return.
